@@ -201,6 +201,9 @@ func c16Run(it c16Item) error {
 			ents[math.Float32bits(float32(ent))] = true
 			return nil
 		})
+		if err == enum.ErrTooBig {
+			return &ev.Skip{Why: "preset tree beyond the leaf budget"}
+		}
 		if err != nil {
 			return err
 		}
